@@ -242,4 +242,54 @@ theorem byebye_ok_unknown (le : σ → σ → Bool) {s : Tracker σ} (hi : Inv s
     intro k d hd
     simp [obsOf, findDev_snapOf, hd]
 
+/-! ### soundness of the judge's own bookkeeping (no model involved) -/
+
+/-- every validity recorded in the judge's spec state comes from a valid sighting among `evs` -/
+structure SpFrom (evs : List (Ev σ)) (sp : Sp σ) : Prop where
+  nodup : (keys sp).Nodup
+  src : ∀ u e b, get? sp u = some (e, b) → ∃ m l, Ev.msg m ∈ evs ∧ m.sighting? = some (u, l) ∧ m.ts + m.maxAge = e
+
+theorem spFrom_nil : SpFrom ([] : List (Ev σ)) ([] : Sp σ) := ⟨by simp [keys], by simp [get?]⟩
+
+theorem spFrom_step {evs : List (Ev σ)} {sp : Sp σ} (h : SpFrom evs sp) (e : Ev σ) :
+    SpFrom (evs ++ [e]) (specStep sp e) := by
+  have htick : SpFrom (evs ++ [e]) (tick e.time sp) := by
+    refine ⟨by rw [keys_tick]; exact h.nodup, ?_⟩
+    intro u x b hg
+    rw [get?_tick] at hg
+    cases hs : get? sp u with
+    | none => rw [hs] at hg; cases hg
+    | some v =>
+      rw [hs] at hg
+      simp only [Option.map_some, Option.some.injEq, Prod.mk.injEq] at hg
+      obtain ⟨m, l, hm, h1, h2⟩ := h.src u v.1 v.2 (by rw [hs])
+      exact ⟨m, l, List.mem_append_left _ hm, h1, by rw [h2]; exact hg.1⟩
+  cases e with
+  | purge t => exact htick
+  | noise t => exact htick
+  | msg m =>
+    simp only [specStep]
+    cases hsi : m.sighting? with
+    | some p =>
+      obtain ⟨u, l⟩ := p
+      simp only
+      refine ⟨nodup_keys_set _ _ _ htick.nodup, ?_⟩
+      intro k x b hg
+      simp only [get?_set] at hg
+      by_cases hk : u = k
+      · subst hk
+        simp only [if_true, Option.some.injEq, Prod.mk.injEq] at hg
+        exact ⟨m, l, by simp, hsi, hg.1⟩
+      · simp only [hk, if_false] at hg
+        exact htick.src k x b hg
+    | none =>
+      simp only
+      cases hb : m.byebye? with
+      | none => exact htick
+      | some u =>
+        simp only
+        refine ⟨nodup_keys_erase _ _ htick.nodup, ?_⟩
+        intro k x b hg
+        exact htick.src k x b (get?_erase_some htick.nodup hg).2
+
 end Upnp.C03
